@@ -53,7 +53,8 @@ Inductive eop :=
 | ECheck (n : nat)
 | ENoop (c : string)                                  (* a packet Process has no case for (CONNACK, SUBACK, PINGRESP, QoS 3 ...) *)
 | EBadConnect (n : nat) (c : string)                 (* a first packet that is not a decodable CONNECT *)
-| EPanic.
+| EPanic
+| EGossipRev (src dst : nat).                         (* the pending broadcasts of src reach dst in reverse order *)
 
 (** * one node *)
 Record sess := Sess { ss_id : string; ss_cid : string; ss_mp : string; ss_lwt : option publish; ss_ka : Z;
@@ -420,14 +421,16 @@ Definition sweep (cl : cluster) (i : nat) : cluster * list eobs :=
 (* gossip: every broadcast of src not yet delivered to dst, in order *)
 Definition deliv_count (cl : cluster) (a b : nat) : nat :=
   match find (fun x => Nat.eqb (fst (fst x)) a && Nat.eqb (snd (fst x)) b) (cl_deliv cl) with Some x => snd x | None => O end.
-Definition gossip (cl : cluster) (a b : nat) : cluster :=
+Definition gossip_with (reorder : list bevent -> list bevent) (cl : cluster) (a b : nat) : cluster :=
   let src := getn cl a in
-  let evs := skipn (deliv_count cl a b) (n_out src) in
+  let evs := reorder (skipn (deliv_count cl a b) (n_out src)) in
   let dst := getn cl b in
   let dst' := set_d dst (fold_left merge_event evs (n_d dst)) in
   let cl' := setn cl b dst' in
   Cluster (cl_nodes cl') (cl_conns cl') (cl_bad cl') (cl_down cl')
           ((a, b, length (n_out src)) :: filter (fun x => negb (Nat.eqb (fst (fst x)) a && Nat.eqb (snd (fst x)) b)) (cl_deliv cl')) (cl_next cl').
+
+Definition gossip := gossip_with (fun l => l).
 
 (* nodes.go NotifyGossipLeave on the observer, including the delayed DeletePeer of the session records *)
 Definition peer_leave (cl : cluster) (o dead : nat) (clk : Z) : cluster * list eobs :=
@@ -470,6 +473,7 @@ Definition step_raw (seen : seen_t) (cl : cluster) (o : eop) : cluster * list eo
   | EBadConnect n c =>
     (Cluster (cl_nodes cl) (cl_conns cl ++ [Conn c n None true])%list (cl_bad cl) (cl_down cl) (cl_deliv cl) (cl_next cl), [Closed c])
   | EPanic => (cl, [])
+  | EGossipRev a b => (gossip_with (@rev bevent) cl a b, [])
   end.
 Definition step (seen : seen_t) (cl : cluster) (o : eop) : cluster * list eobs :=
   let r := step_raw seen cl o in
